@@ -151,6 +151,7 @@ def runtime_overlay(ctx):
         text = srcs.get(path) or open(path).read()
         if old not in text:
             ctx.notes.append(f"runtime patch anchor not found in {rel}: {old}")
+            ctx.violation("machinery", "", f"runtime patch anchor not found in {rel}: {old} (the driver would not be deterministic)", no_input=True)
             continue
         srcs[path] = text.replace(old, new)
     for path, text in srcs.items():
@@ -181,12 +182,35 @@ def run_sched(ctx, prop, modules, theorems):
         ctx.violation("driver-failed", "", out[-1500:], no_input=True)
     ctx.read_stats(outdir)
     failures = ctx.l2(outdir) + (probed[3] if not ctx.replay else [])
-    wedged = {f["case"].strip() for f in failures if f["kind"].startswith("c02-deadlock")}
+    # the witness and deadlock corpora write into their own sub-directories (TestVerifSched truncates the shared files)
+    sublines = []
+    for sub in ("TestVerifSchedWitness", "TestVerifSchedDeadlockCorpus"):
+        sd = os.path.join(outdir, sub)
+        if ctx.replay:
+            continue
+        if not os.path.isdir(sd):
+            ctx.violation("correspondence-coverage", "", f"{sub} produced no output directory", no_input=True)
+            continue
+        ctx.read_stats(sd)
+        failures += ctx.l2(sd)
+        so = os.path.join(sd, "ops.txt")
+        sublines += [l.rstrip("\n") for l in open(so)] if os.path.exists(so) else []
+    if not ctx.replay:
+        for key, n in (("corpus_scripts_TestVerifSchedWitness", 2), ("corpus_scripts_TestVerifSchedDeadlockCorpus", 3)):
+            if ctx.stats.get(key, 0) < n:
+                ctx.violation("correspondence-coverage", "", f"{key} = {ctx.stats.get(key, 0)} < {n}", no_input=True)
+        for key in ("runtime_select_deterministic", "runtime_timer_ties_deterministic", "runtime_map_iteration_deterministic"):
+            if not ctx.stats.get(key):
+                ctx.violation("machinery", "", f"driver reports {key} = 0 (runtime patches not in effect)", no_input=True)
+    known02 = [k for k in core.load_findings("C02") if k.get("status") == "known"]
+    wedged = {f["case"].strip() for f in failures if f["kind"].startswith("c02-deadlock")
+              and any(core.default_matcher(k, f) for k in known02)}
     # ---- L1: trace conformance (the model must be able to reproduce every observation)
     ops = os.path.join(outdir, "ops.txt")
     lines = [l.rstrip("\n") for l in open(ops)] if os.path.exists(ops) else []
     if not ctx.replay:
         lines += [l.rstrip("\n") for l in probed[4]]       # the probe's traces must conform to the model too
+        lines += sublines                                   # and the witness / deadlock corpora's
     if not lines:
         ctx.l1_disagreements.append({"label": "L1", "op": "<driver produced no traces>", "impl": "", "model": ""})
     vname = variant or "good"
@@ -216,8 +240,22 @@ def run_sched(ctx, prop, modules, theorems):
     ctx.coverage["l1_distinct_ops"] = len(set(keep))
     ctx.coverage["traces"] = {"generated": len(lines), "compared": compared, "oracle_budget_exceeded": budget,
                               "skipped_wedged_known_deadlock": skipped}
+    # fail closed when the generator stopped exercising a family of model actions (environment events, grant paths,
+    # eviction of a busy victim, cancellation while queued / loading, the shutdown monitor)
+    if not ctx.replay:
+        need = ["ev_submit", "ev_submitr", "ev_done", "ev_loaddone", "ev_unload", "ev_advance", "ev_ping", "ev_pingdone",
+                "runners_started", "sc_evict_busy", "sc_cancel_before_reply", "sc_cancel_loading", "gen_cancel_queued",
+                "q_mutex_parked", "reqs_explicit_use_mmap", "shutdown_unloadAllRunners"]
+        missing = [k for k in need if not ctx.stats.get(k)]
+        ctx.coverage["branch_counters_required"] = {k: ctx.stats.get(k, 0) for k in need}
+        if missing:
+            ctx.violation("correspondence-coverage", "", "generator never exercised: " + ", ".join(missing), no_input=True)
     if lines and compared < 0.6 * len(lines):
         ctx.violation("correspondence-coverage", "", f"only {compared}/{len(lines)} traces compared", no_input=True)
+    if lines and budget > max(3, 0.08 * len(lines)):
+        ctx.violation("correspondence-coverage", "", f"oracle closure budget exceeded on {budget}/{len(lines)} traces (> 8 %)", no_input=True)
+    if lines and skipped > max(3, 0.15 * len(lines)):
+        ctx.violation("correspondence-coverage", "", f"{skipped}/{len(lines)} traces wedged by a known deadlock and not compared (> 15 %)", no_input=True)
     # ---- directed search: scripts on which the real scheduler left the model's behaviours are re-run with a
     # drain-and-probe suffix (VERIF_EXTEND) so that the end-of-trace monitors get a chance to turn the divergence
     # into a concrete property failure (e.g. a blocked completed loop only shows on the NEXT request)
@@ -258,8 +296,11 @@ def run_sched(ctx, prop, modules, theorems):
             ctx.read_stats(dir16)
             ctx.l1(dir16, label=label)
             for f in ctx.l2(dir16):
-                if "nowrap=false" in f.get("detail", ""):
-                    continue      # uint64 wrap-around with figures near 2^64: C16's known finding W2, reported by C16's check
+                w2 = [k for k in core.load_findings("C16") if k.get("id") == "W2" and k.get("status") == "known"]
+                if any(core.default_matcher(k, f) for k in w2):
+                    # uint64 wrap-around with figures near 2^64: exactly C16's known finding W2 (its signature), reported by C16's check
+                    ctx.coverage["c16_w2_dropped"] = ctx.coverage.get("c16_w2_dropped", 0) + 1
+                    continue
                 f = dict(f)
                 f["kind"] = "c11-fit-" + f["kind"]
                 failures.append(f)
